@@ -35,7 +35,7 @@ VALS = [1, 2, "s", [1], {"n": 1}, None]
 
 
 def shards(tier):
-    reps = 2 if tier == "quick" else 8
+    reps = 4 if tier == "quick" else 16
     names = [c.name for c in JSON_ALL]
     return [{"cls": n, "rep": r} for n in names for r in range(reps)]
 
@@ -188,14 +188,20 @@ def explore_program(program, acc, active, sample_extra=None, real_time=False):
 
 
 def run_shard(spec, seed, tier, active):
+    conc.MAX_SCHEDULES[0] = 2500 if tier == "quick" else 20000
     ci = CLASSES[spec["cls"]]
     acc = Acc()
-    n = 2 if tier == "quick" else 20
+    n = 2 if tier == "quick" else 10
     excl = excl_of(active)
+
+    first = [True]
 
     def one(data):
         draw = data.draw
         program = draw_program(draw, ci)
+        if first[0]:
+            first[0] = False
+            return      # Hypothesis always starts with the minimal example: spend the budget elsewhere
         program = apply_exclusions(program, excl, acc)
         if program is None:
             return
